@@ -42,6 +42,9 @@ func runC08(c *Ctx) {
 		return
 	}
 	c08NodeFromObject(c, pkM)
+	c08ContentFullyRead(c)
+	c08SortOwnSlice(c)
+	c08CanonicalString(c)
 	// digest functions of bufmodule: those in digest.go whose name mentions Digest
 	var digestFns []*FuncRef
 	for _, fr := range p.FuncsOf(pkM) {
